@@ -45,7 +45,15 @@ def run(facts, rep, tier):
     results = out["results"]
     seen = set()
     n1 = n3 = 0
+    lost = {}
     for r in sel(results, "G"):
+        if r.icao_opt is None:
+            cdf = r.df
+            if cdf is None:
+                tg = [x for x in r.ctx.get("tags", ()) if isinstance(x, str) and x.startswith("df") and x[2:].isdigit()]
+                cdf = int(tg[0][2:]) if tg else None
+            if cdf is not None:
+                lost.setdefault(cdf, r.diverged or "no address value")
         if r.df is None or r.df in seen or r.icao_opt is None:
             continue
         seen.add(r.df)
@@ -95,6 +103,17 @@ def run(facts, rep, tier):
                             "DF%d: address bit %d is %s; expected %s" % (df, k, "not linear" if got is None else "XOR%s^%d" % (sorted(got[0])[:10], got[1]),
                                                                      "frame bit %d" % (32 - k) if df in AA_FORMATS else "AP bit xor CRC-24 (XOR of %d bits)" % len(want[0]) if want else "-"), None))
     need = set(AP_FORMATS + AA_FORMATS)
+    for df in sorted((need - seen) & set(lost)):
+        # the context exists but the address computation could not be followed to a value (e.g. a data-dependent loop exit in
+        # the CRC division): the identity is not established
+        seen.add(df)
+        n1 += 1
+        if df in AP_FORMATS:
+            n3 += 1
+        rep.oblige(False, ("addr", df))
+        rep.add(Finding("R03.1" if df in AA_FORMATS else "R03.3", "address of DF%d not bit-exact" % df,
+                        "DF%d: the address computation cannot be followed to a value (%s): not provably %s" % (
+                            df, str(lost[df])[:160], "the AA field" if df in AA_FORMATS else "AP xor CRC-24 of the data bits"), None))
     if need - seen:
         raise Broken("C03: no gate context for DF %s" % sorted(need - seen))
     rep.instances("R03.1", n1, floor=9, what="downlink formats")
